@@ -47,6 +47,9 @@ example : encodeAnn AN_DATA_DESC (720, 3) [65, 0, 66] = [2, 208, 0, 3, 65, 0, 66
 theorem tree_sorted_step (s : AnState) (op : Op) (h : TreeSorted s.tree) : TreeSorted (step s op).1.tree := by
   cases op with
   | start => simp [step, TreeSorted]
+  | endan => simp [step, TreeSorted]
+  | restart => simpa [step] using h
+  | hput tag ref b => simpa [step] using h
   | fileinfo =>
     simp only [step]
     exact loadType_sorted _ _ (loadType_sorted _ _ (loadType_sorted _ _ (loadType_sorted _ _ h)))
@@ -206,5 +209,102 @@ example :
     let s := (step (step {} .fileinfo).1 (.create 0 1000 5 1)).1
     (step s (.writeann 0 1 [])).2 = .fail ∧ (step (step s (.writeann 0 1 [])).1 (.rawelem 104 1)).2 = .fail := by
   decide
+
+/-! ## several sessions on a file that stays open (`ANend`, then `ANstart` again on a file id of the same file record)
+
+The four trees, the annotation atoms and the four counts live in the `filerec_t`, which outlives `ANend` as long as a file
+id of the file is open.  `ANend` must therefore put EVERY type back to "not built" — otherwise the next session on the
+open file answers from the previous session's tree of that type: it misses what was written in between through
+`DFANaddfid`/`DFANaddfds`/`Hputelement`, and its ids still name the file id that built them. -/
+
+/-- **`ANend` forgets all four types; `ANstart` adds nothing**: whatever the session held (any tree, any set of loaded
+    types), afterwards no type counts as loaded and no tree entry is left — for every type, the file descriptions included -/
+theorem endan_forgets_every_type (s : AnState) :
+    step s .endan = ({ elems := s.elems, tree := [], loaded := [] }, .ok) ∧
+    (∀ t, countType (step s .endan).1 t = 0 ∧ (step s .endan).1.loaded.contains t = false) ∧
+    step (step s .endan).1 .restart = ((step s .endan).1, .ok) :=
+  ⟨rfl, fun _ => ⟨rfl, rfl⟩, rfl⟩
+
+/-- **the next session lists exactly what the file holds — every type**: after `ANend` + `ANstart` on the open file,
+    whatever the previous session had in its trees, building the tree of type `t` (what `ANfileinfo`, `ANselect`,
+    `ANnumann`, `ANannlist`, `ANtagref2id`, `ANcreate` do first) yields exactly the annotations of that type that exist in
+    the file NOW, each once: in particular those written after the previous session loaded the type. -/
+theorem next_session_lists_the_file (s : AnState) (hok : FileOk s.elems) (t : Nat) (ht : t < 4) :
+    let s0 := (step (step s .endan).1 .restart).1
+    (ofType t (loadType s0 t).tree).Perm (fileEntries s.elems t) ∧
+    countType (loadType s0 t) t = (fileEntries s.elems t).length := by
+  have h := (loadType_perm { elems := s.elems, tree := [], loaded := [] } t ht rfl hok (by simp)).1
+  simp only [List.nil_append] at h
+  have hp : (ofType t (loadType { elems := s.elems, tree := [], loaded := [] } t).tree).Perm (fileEntries s.elems t) := by
+    have := h.filter (fun p => AN_KEY2TYPE p.1 == t)
+    rwa [filter_type_fileEntries s.elems hok t t ht, if_pos rfl] at this
+  exact ⟨hp, hp.length_eq⟩
+
+/-- **`ANfileinfo` of the next session counts the file, all four types**: after `ANend` + `ANstart` on the open file the
+    four numbers are the numbers of file labels, file descriptions, object labels and object descriptions that exist in
+    the file, independent of the trees and counts of the session before. -/
+theorem next_session_fileinfo_counts_the_file (s : AnState) (hok : FileOk s.elems) :
+    (step (step (step s .endan).1 .restart).1 .fileinfo).2 =
+      .nats [(fileEntries s.elems AN_FILE_LABEL).length, (fileEntries s.elems AN_FILE_DESC).length,
+             (fileEntries s.elems AN_DATA_LABEL).length, (fileEntries s.elems AN_DATA_DESC).length] := by
+  have ty := fileEntries_type s.elems hok
+  obtain ⟨p1, l1, e1⟩ := load_next { elems := s.elems, tree := [], loaded := [] } AN_FILE_LABEL (by decide) [] rfl rfl hok []
+    (List.Perm.refl _) (by simp)
+  obtain ⟨p2, l2, e2⟩ := load_next _ AN_FILE_DESC (by decide) _ l1 (by decide) (e1 ▸ hok) _ p1 (by
+    intro x hx
+    simp only [List.nil_append] at hx
+    rw [ty AN_FILE_LABEL (by decide) x hx]; decide)
+  rw [e1] at p2 e2
+  obtain ⟨p3, l3, e3⟩ := load_next _ AN_DATA_LABEL (by decide) _ l2 (by decide) (e2 ▸ hok) _ p2 (by
+    intro x hx
+    simp only [List.nil_append, List.mem_append] at hx
+    rcases hx with hx | hx
+    · rw [ty AN_FILE_LABEL (by decide) x hx]; decide
+    · rw [ty AN_FILE_DESC (by decide) x hx]; decide)
+  rw [e2] at p3 e3
+  obtain ⟨p4, l4, e4⟩ := load_next _ AN_DATA_DESC (by decide) _ l3 (by decide) (e3 ▸ hok) _ p3 (by
+    intro x hx
+    simp only [List.nil_append, List.mem_append] at hx
+    rcases hx with (hx | hx) | hx
+    · rw [ty AN_FILE_LABEL (by decide) x hx]; decide
+    · rw [ty AN_FILE_DESC (by decide) x hx]; decide
+    · rw [ty AN_DATA_LABEL (by decide) x hx]; decide)
+  rw [e3] at p4
+  have cnt : ∀ t', countType (loadType (loadType (loadType (loadType { elems := s.elems, tree := [], loaded := [] }
+      AN_FILE_LABEL) AN_FILE_DESC) AN_DATA_LABEL) AN_DATA_DESC) t' =
+      ((if AN_FILE_LABEL = t' then fileEntries s.elems AN_FILE_LABEL else []) ++
+       (if AN_FILE_DESC = t' then fileEntries s.elems AN_FILE_DESC else []) ++
+       (if AN_DATA_LABEL = t' then fileEntries s.elems AN_DATA_LABEL else []) ++
+       (if AN_DATA_DESC = t' then fileEntries s.elems AN_DATA_DESC else [])).length := by
+    intro t'
+    have := (p4.filter (fun p => AN_KEY2TYPE p.1 == t')).length_eq
+    simp only [List.nil_append, List.filter_append] at this
+    rw [filter_type_fileEntries _ hok _ t' (by decide), filter_type_fileEntries _ hok _ t' (by decide),
+        filter_type_fileEntries _ hok _ t' (by decide), filter_type_fileEntries _ hok _ t' (by decide)] at this
+    exact this
+  show Out.nats _ = _
+  simp only [step]
+  rw [cnt, cnt, cnt, cnt]
+  have c : AN_DATA_LABEL = 0 ∧ AN_DATA_DESC = 1 ∧ AN_FILE_LABEL = 2 ∧ AN_FILE_DESC = 3 := by decide
+  simp [c.1, c.2.1, c.2.2.1, c.2.2.2]
+
+/-- the hypotheses are satisfiable and the statement bites: a session that saw two file descriptions and one file label;
+    `ANend`; a file description and a file label added through the open file id (`DFANaddfds`, `DFANaddfid`), an object
+    label through `Hputelement`; the next session on the open file counts and lists all of them -/
+example :
+    let file : AnState := { elems := [((101, 1), [65]), ((100, 1), [66]), ((101, 2), [67])] }
+    let s1 := (step (step file .start).1 .fileinfo).1
+    let s2 := (step (step (step (step s1 .endan).1 (.dfaddf 3 3 [68])).1 (.dfaddf 2 2 [69])).1 (.hput 104 1 [2, 208, 0, 1, 70])).1
+    let s3 := (step s2 .restart).1
+    (step s1 .fileinfo).2 = .nats [1, 2, 0, 0] ∧ (step s3 .fileinfo).2 = .nats [2, 3, 1, 0] ∧
+    (step s3 (.select 3 0)).2 = .int 3 ∧ (step s3 (.annlist 0 720 1)).2 = .nats [1] ∧
+    fileEntries s2.elems 3 = [(AN_CREATE_KEY 3 1, ⟨1, 101, 1⟩), (AN_CREATE_KEY 3 2, ⟨2, 101, 2⟩), (AN_CREATE_KEY 3 3, ⟨3, 101, 3⟩)] := by
+  decide
+
+example : FileOk [((101, 1), [65]), ((100, 1), [66]), ((101, 2), [67])] := by
+  refine ⟨by decide, ?_⟩
+  intro p hp
+  simp only [List.mem_cons, List.not_mem_nil, or_false] at hp
+  rcases hp with rfl | rfl | rfl <;> decide
 
 end H4.Props.C11
